@@ -94,7 +94,8 @@ def header_programs(tier):
     shapes1 = list(itertools.product((None, 1, "lo"), (None, 3, "hi"), (None, 2, "st")))
     shapes2 = list(itertools.product((None, 0, "z"), (None, 1, "one"), (None, 1, "one")))
     lets = (("let", "lo", 1), ("let", "hi", 3), ("let", "st", 2), ("let", "z", 0), ("let", "one", 1), ("let", "sz", 4))
-    ups = ((), (("usepulses", "a.b"),), (("usepulses", "a.b"), ("usepulses", ".c")))
+    ups = ((), (("usepulses", "a.b"),), (("usepulses", "a.b"), ("usepulses", ".c")),
+           (("usepulses", "a.b"), ("usepulses", ".c"), ("usepulses", "a.b")))  # one module imported twice
     for size in (4, "sz"):
         for up in ups:
             for s1 in shapes1:
